@@ -211,7 +211,11 @@ PROPS = {
                                 "Value::zero", "Value::prune", "Value::from_compact_bits", "Value::from_padded_bits", "Value::shallow_clone",
                                 "Value::left", "Value::right", "Value::product", "Value::unit", "Value::is_of_type", "final_eq",
                                 "lemma_same_trans", "lemma_same_sym", "lemma_same_width", "lemma_shape_same", "lemma_exec_bound",
-                                "lemma_wid", "lemma_wid2", "lemma_tmr_eq_same"]},
+                                "lemma_wid", "lemma_wid2", "lemma_tmr_eq_same",
+                                # the type-layout functions the value codecs are proved against (a wrong width / padding flag
+                                # makes a witness decode to something its own serialisation does not give back)
+                                "Final::unit", "Final::sum", "Final::product", "Final::bit_width", "Final::has_padding", "Final::is_empty",
+                                "Final::bound", "Final::as_sum", "Final::as_product", "Final::pad_left", "Final::pad_right", "Final::eq"]},
         "kani": {"quick": [], "thorough": []},
         "level": "proof",
         "level_text": "Modular deductive proof (Verus) of the datatype invariant 'a witness stored in a redemption node has exactly the inferred target "
@@ -247,14 +251,17 @@ PROPS = {
                       "never exceeds the size of the tree unfolding of the root (potential `rem`), so with at most usize::MAX tree nodes the index cannot overflow. "
                       "COMPLETENESS: the invariant also carries that every item yielded had its children (their classes) yielded earlier and that an exhausted iterator has yielded "
                       "the root; theorem_post_order_complete: for every path of child edges from the root, every node on it has been yielded (itself or a node of its class) once next "
-                      "returns None - given that sharing classes are congruences (stated hypothesis `cong`). "
+                      "returns None - given that sharing classes are congruences (stated hypothesis `cong`). SOUNDNESS: everything on the stack or yielded is reachable from the root. "
+                      "PRE-ORDER (ghost trace added): the work list only holds the root or children of nodes already yielded, every node yielded is the root or a child of one yielded EARLIER "
+                      "(parent first), the table holds exactly the classes yielded; theorem_pre_order_complete / _reachable; and theorem_pre_post_same_set: an exhausted post-order and an "
+                      "exhausted pre-order traversal of one root under one sharing policy have yielded the same nodes (up to sharing class) - both exactly the reachable ones. "
                       "is_shared_as: the verdict is the pointwise address comparison of the traces of the two iterators it creates (InternalSharing over a clone "
                       "of the root, the requested tracker over the root), true only when one trace is exhausted; the zip loop terminates.",
         "level_note": "Assumed (R5): the contracts of the two traits — DagLike (as_dag_node is a pure function of the node; the DAG is finite/acyclic) and "
                       "SharingTracker (a table from sharing class to first index). NoSharing, InternalSharing and MaxSharing (for &Node) ARE proved to meet it "
                       "(the entry-API match is rewritten to get/insert, R10; vstd's HashMap model; key-model axioms for PointerId / SharingId / EncodeId), as is EncodeSharing; the Arc/SwapChildren "
                       "variants of MaxSharing are not. Ghost fields `hist` (trace) and `root` are added to PostOrderIter. `for (a, b) in x.zip(y)` is rewritten to the definition of Zip::next (R10). "
-                      "Not decided: set equality of pre-order and post-order, that equal traces in is_shared_as "
+                      "Not decided: that equal traces in is_shared_as "
                       "mean equal sharing partitions, VerbosePreOrderIter.",
         "assumptions": [
             "DagLike implementors: as_dag_node deterministic; finite acyclic DAG (rank)",
@@ -263,7 +270,7 @@ PROPS = {
             "the tree unfolding of the DAG has at most usize::MAX nodes (precondition of next / is_shared_as)",
             "Clone of a DagLike handle: only call_ensures(D::clone) is known about the clone is_shared_as iterates over",
         ],
-        "not_decided": ["pre-order/post-order set equality", "is_shared_as: equal traces <=> equal sharing partitions", "that a given tracker's classes are congruences (hypothesis of the completeness theorem)"],
+        "not_decided": ["is_shared_as: equal traces <=> equal sharing partitions", "that a given tracker's classes are congruences (hypothesis of the completeness theorem)"],
         "explanation": "",
     },
     "C16": {
